@@ -20,7 +20,7 @@ def sym(name, **kw):
 
 
 UNARY_METHODS = {
-    "array": lambda x: x, "matrix": lambda x: x, "transpose": lambda x: x, "eval": lambda x: x, "vector": None,
+    "array": lambda x: x, "matrix": lambda x: x, "transpose": lambda x: x, "eval": lambda x: x, "vector": lambda x: x,
     "square": lambda x: x ** 2, "abs": sp.Abs, "abs2": lambda x: x ** 2, "exp": sp.exp, "log": sp.log, "sqrt": sp.sqrt,
     "sign": sp.sign, "atan": sp.atan, "tanh": sp.tanh, "cube": lambda x: x ** 3, "inverse": lambda x: 1 / x,
     "cwiseAbs": sp.Abs, "cwiseAbs2": lambda x: x ** 2, "cwiseSqrt": sp.sqrt, "cos": sp.cos, "sin": sp.sin,
@@ -335,3 +335,152 @@ def compare_expr(f, node, spec, atoms=None, seed=0, **kw):
     if z is None:
         return None, wit
     return z, ("code computes %s; %s" % (got, wit)) if not z else ""
+
+
+# ----------------------------------------------------------------------------------------------
+# straight-line symbolic execution of assignment statements (used for small update kernels)
+
+_VIEW_CALLS = (".array()", ".matrix()", ".vector()", ".transpose()", ".colwise()", ".rowwise()", ".eval()")
+
+
+def designator(n):
+    """canonical text naming the storage an lvalue expression designates (views stripped)"""
+    t = pp(n)
+    for v in _VIEW_CALLS:
+        t = t.replace(v, "")
+    while t.startswith("(") and t.endswith(")"):
+        t = t[1:-1]
+    return t
+
+
+class SymExec:
+    """executes `x = e`, `x op= e` and `const auto x = e` statements in order; every designator is a symbol until written"""
+
+    def __init__(self, f, atoms=None, scalar=True, funcs=None, positive=()):
+        self.f = f
+        self.state = {}          # designator -> sympy expr
+        self.decl = {}           # decl id -> sympy expr
+        self.atoms = dict(atoms or {})
+        self.scalar = scalar
+        self.funcs = funcs
+        self.positive = positive
+
+    def conv(self, n):
+        atoms = dict(self.atoms)
+        for k, v in self.state.items():
+            atoms[k] = v
+            for view in _VIEW_CALLS:
+                atoms[k + view] = v
+        cv = Conv(self.f, atoms=atoms, scalar=self.scalar, subst=self.decl, funcs=self.funcs, inline=False, positive=self.positive)
+        cv._conv_orig = cv._conv
+
+        def conv_with_state(node, _cv=cv):
+            node2 = skip(node)
+            if node2 is not None:
+                d = designator(node2)
+                if d in self.state:
+                    return self.state[d]
+            return _cv._conv_orig(node)
+        cv._conv = conv_with_state
+        return cv.conv(n)
+
+    def run(self, stmts):
+        for s in stmts:
+            self.step(s)
+
+    def step(self, s):
+        s = skip(s)
+        if s is None:
+            return
+        if s["k"] == "declstmt":
+            for v in s.get("c", ()):
+                if v["k"] == "var" and v.get("c") and not v.get("bindings"):
+                    init = skip(v["c"][0])
+                    if init["k"] == "lambda":
+                        continue
+                    if v.get("isref"):
+                        # reference / view alias: reads and writes go to the aliased storage
+                        self.alias = getattr(self, "alias", {})
+                        self.alias[v["n"]] = designator(init)
+                        continue
+                    self.decl[v["d"]] = self.conv(init)
+            return
+        a = assignment(s)
+        if a:
+            lhs, rhs, op = a
+            key = designator(lhs)
+            key = getattr(self, "alias", {}).get(key, key)
+            cur = self.state.get(key)
+            if cur is None:
+                d = ref_decl(lhs)
+                cur = self.decl.get(d) if d is not None and d in self.decl else sym(key)
+            val = self.conv(rhs)
+            if op == "=":
+                new = val
+            elif op == "+=":
+                new = cur + val
+            elif op == "-=":
+                new = cur - val
+            elif op == "*=":
+                new = cur * val
+            elif op == "/=":
+                new = cur / val
+            else:
+                raise OutOfFragment("assignment operator " + op)
+            d = ref_decl(lhs)
+            if d is not None and d in self.decl:
+                self.decl[d] = new
+            self.state[key] = new
+            return
+        if s["k"] == "block":
+            self.run(s.get("c", ()))
+            return
+        if s["k"] in ("call", "null") or (s["k"] == "cast" and s.get("ck") == "ToVoid") or s["k"] in ("int",):
+            return   # calls without assignment / compiled-out assert() have no tracked effect here
+        raise OutOfFragment("statement kind %s: %s" % (s["k"], pp(s)[:80]))
+
+
+def sign_nonneg(e):
+    """True if the sympy expression is provably >= 0 from its shape (squares, abs, max with a non-negative, sums/products/quotients
+    of non-negatives, positive symbols); False means unknown"""
+    e = sp.sympify(e)
+    if e.is_number:
+        return bool(e.is_nonnegative)
+    if e.is_Symbol:
+        return bool(e.is_positive or e.is_nonnegative)
+    if isinstance(e, sp.Abs):
+        return True
+    if isinstance(e, sp.Max):
+        return any(sign_nonneg(a) for a in e.args)
+    if isinstance(e, sp.Min):
+        return all(sign_nonneg(a) for a in e.args)
+    if e.is_Pow:
+        b, ex = e.args
+        if ex.is_number and ex.is_integer and int(ex) % 2 == 0:
+            return True
+        if ex.is_number and ex.is_integer and int(ex) < 0:
+            return sign_nonneg(b)
+        if ex == sp.Rational(1, 2):
+            return True
+        return sign_nonneg(b)
+    if e.is_Add:
+        return all(sign_nonneg(a) for a in e.args)
+    if e.is_Mul:
+        neg = 0
+        for a in e.args:
+            if a.is_number:
+                if a.is_nonnegative:
+                    continue
+                if a.is_negative:
+                    neg += 1
+                    continue
+                return False
+            if sign_nonneg(a):
+                continue
+            return False
+        return neg % 2 == 0
+    if isinstance(e, (sp.exp,)):
+        return True
+    if isinstance(e, sp.Piecewise):
+        return all(sign_nonneg(a) for a, _ in e.args)
+    return False
